@@ -1000,6 +1000,15 @@ def repeatSimpleActions (acs : List Action) (pq : List Coord) (delay : Nat) (ls 
       | .ok s => repeatSimpleActions acs pq delay ls rest s
     else repeatSimpleActions acs pq delay ls rest s
 
+/-- the `if let Some(pq) = pq { match tap { … } }` part of `waiting_into_tap`: a chord's action of a
+simple kind is performed again on every coordinate of the pressed queue, so that it stays active
+while any participating key is held -/
+def chordRepeat (tap : Action) (pq : List Coord) (delay : Nat) (ls : List Nat) (s : Layout) : Except Crash Layout :=
+  if simpleAction tap then repeatForCoords tap delay ls pq s
+  else match tap with
+    | .multipleActions acs => repeatSimpleActions acs pq delay ls acs s
+    | _ => .ok s
+
 /-- `Layout::waiting_into_tap` -/
 def waitingIntoTap (s : Layout) (pq : Option (List Coord)) (idx : Option Nat) : Except Crash (Layout × CustomEv) :=
   match takeWaiting s idx with
@@ -1011,12 +1020,7 @@ def waitingIntoTap (s : Layout) (pq : Option (List Coord)) (idx : Option Nat) : 
       match pq with
       | none => .ok (tapPost s, ret)
       | some pq =>
-        let r :=
-          if simpleAction w.tap then repeatForCoords w.tap (waitingDelay w) w.layerStack pq s
-          else match w.tap with
-            | .multipleActions acs => repeatSimpleActions acs pq (waitingDelay w) w.layerStack acs s
-            | _ => .ok s
-        match r with
+        match chordRepeat w.tap pq (waitingDelay w) w.layerStack s with
         | .error e => .error e
         | .ok s => .ok (tapPost s, ret)
 
